@@ -52,8 +52,11 @@ ID = "C21"
 LEVEL = "exploration"
 
 # module -> deviation bound of the test-case enumeration
-MODULES_QUICK = {"numeric": 1, "containers": 1, "shapes": 1, "raising": 1}
-MODULES_THOROUGH = {"numeric": 1, "containers": 2, "shapes": 2, "strings": 1, "raising": 2}
+MODULES_QUICK = {"numeric": 1, "containers": 1, "shapes": 1, "raising": 1, "c21_flaky": 1}
+MODULES_THOROUGH = {"numeric": 1, "containers": 2, "shapes": 2, "strings": 1, "raising": 2, "c21_flaky": 2}
+# modules whose observable values change with every execution in the process (the filtering pass
+# must drop the assertions on them); their mutant modules are re-created for every suite
+STATEFUL = {"c21_flaky"}
 SCRIPT = [("insert",), ("insert",)]
 
 # generator configurations of the real leg: name -> (kind, strategy, order, minimise)
@@ -743,6 +746,14 @@ def run_real_case(col, leg, cfgname, choice_lists, shuffle, tests=None, cache=No
                     return real_handle(tcs)
 
                 gen._handle_add_assertions = handle  # noqa: SLF001
+            traced = []
+            real_add_for = gen._add_assertions_for  # noqa: SLF001
+
+            def add_for(test_case, result, traced=traced, real_add_for=real_add_for):
+                real_add_for(test_case, result)
+                traced.append(sum(len(st.assertions) for st in test_case.statements()))
+
+            gen._add_assertions_for = add_for  # noqa: SLF001
             suite.accept(gen)
             if shuffle and (not chooser.points or chooser.points[0][0] != "shuffle"):
                 raise HarnessError(f"the first RNG draw of {cfgname} is not the filtering shuffle: "
@@ -763,6 +774,9 @@ def run_real_case(col, leg, cfgname, choice_lists, shuffle, tests=None, cache=No
     kept = [_snapshot(t) for t in tests]
     nkept = sum(len(a) for k in kept for a in k)
     col.count("assertions_kept", nkept)
+    after_filter = nkept if full is None else sum(len(a) for f in full for a in f)
+    col.count("assertions_traced", sum(traced))
+    col.count("assertions_removed_by_filtering_pass", sum(traced) - after_filter)
     for k in kept:
         for alist in k:
             for a in alist:
@@ -918,6 +932,8 @@ def shard_real(col, module, bound, cfgnames, lo, hi, stride):
             for t in tests:
                 col.distinct("tests", t.to_code())
             cache.clear()
+            if module in STATEFUL:
+                leg._mutants.clear()  # noqa: SLF001
             for cfgname in cfgnames:
                 if plain_only and cfgname != "plain":
                     continue
@@ -1012,6 +1028,8 @@ def run(ctx):
     need(len(sets.get("configs_with_effect", ())) == len(ma_cfgs),
                 "vacuous: a mutation-analysis configuration never removed an assertion")
     need(cnt.get("mutant_executions", 0) > 100, "vacuous: kill sets were not recomputed")
+    need(cnt.get("assertions_removed_by_filtering_pass", 0) > 10,
+         "vacuous: the filtering pass never removed an assertion")
     ctx.exhaustive = True
     ctx.rule = ("set cover: every kill map of the listed shapes (a assertions x m mutants) under 2 key layouts, "
                 "non-trivial = the selection drops at least one assertion that kills something; "
@@ -1025,8 +1043,9 @@ def run(ctx):
                 "the plain generator with both filtering-shuffle answers), non-trivial = distinct "
                 "(module, suite code, configuration) with at least one assertion kept and (for mutation "
                 "analysis) at least one removed")
-    ctx.assume("corpus modules are deterministic and keep no module-level state; RNG answers (the filtering "
-               "shuffle) range over identity and reversal")
+    ctx.assume("corpus modules are deterministic and keep no module-level state, except c21_flaky whose "
+               "tick()/Box.created change monotonically with every execution (so that the filtering pass has "
+               "something to remove); RNG answers (the filtering shuffle) range over identity and reversal")
     ctx.assume("kill = the test fails: a kept assertion is violated/errs under the real verification observer, "
                "or a statement raises an exception no kept ExceptionAssertion expects; timed-out mutants are "
                "excluded on both sides")
